@@ -1067,14 +1067,14 @@ fn main() {
                         let mut prng = Rng::derive(seed, &[ENGINE_A, 0xF1C5, *id as u64, from]);
                         // (errors and panics more often than successes: error paths are where
                         // diagnostics-minded changes read the environment)
-                        let rate = if c.class == "ok" { 16 } else if c.class == "panic" { 2 } else { 5 };
+                        let rate = if c.class == "ok" { 16 } else if c.class == "panic" { 1 } else { 3 };
                         if prng.below(rate) == 0 && c.class != "timeout" && firstcall_violations.len() < 3 {
                             let n = prng.range(1, 4);
                             let mut envs: Vec<(String, String)> = vec![];
                             for _ in 0..n {
                                 envs.push(((*prng.pick(ENV_NAMES)).to_string(), (*prng.pick(ENV_VALUES)).to_string()));
                             }
-                            if prng.chance(2, 3) {
+                            if prng.chance(3, 4) {
                                 envs.push(("RUST_BACKTRACE".to_string(), (*prng.pick(&["1", "full", "1", "0"])).to_string()));
                             }
                             let tf = format!("{replay_dir}/firstcall-{}-{}.kiki", from, id);
